@@ -2,7 +2,7 @@
 // It runs a command, counts the file-system syscalls that touch paths under a
 // prefix (globally across threads, in the order they are entered) and can kill
 // the process before / after the N-th one or make the N-th one fail with an errno.
-//   sysstep -p <prefix> -o <log> [-1] [-k N | -K N | -f N errno [-P]] -- cmd args...
+//   sysstep -p <prefix> -o <log> [-1] [-k N | -K N | -f N errno [-P] | -s N signo] -- cmd args...
 // Log: one JSON object per relevant syscall, last line {"exit":..,"killed":..,"count":..}.
 #define _GNU_SOURCE
 #include <errno.h>
@@ -24,7 +24,8 @@ static struct { pid_t tid; int insys; long nr; int idx; int interesting; int fai
 static int nT;
 static char fdpath[MAXFD][512];
 static const char *prefix = "";
-static int mode = 0; // 0 record, 1 kill-before, 2 kill-after, 3 fail
+static int mode = 0; // 0 record, 1 kill-before, 2 kill-after, 3 fail, 4 signal-before
+static int signo = 0;
 static int target = -1, ferrno = 0, persist = 0;
 static int counter = 0;
 static FILE *logf;
@@ -76,6 +77,7 @@ int main(int argc, char **argv) {
 		else if (!strcmp(argv[ai], "-k")) { mode = 1; target = atoi(argv[++ai]); }
 		else if (!strcmp(argv[ai], "-K")) { mode = 2; target = atoi(argv[++ai]); }
 		else if (!strcmp(argv[ai], "-f")) { mode = 3; target = atoi(argv[++ai]); ferrno = atoi(argv[++ai]); }
+		else if (!strcmp(argv[ai], "-s")) { mode = 4; target = atoi(argv[++ai]); signo = atoi(argv[++ai]); }
 		else if (!strcmp(argv[ai], "-P")) persist = 1;
 		else if (!strcmp(argv[ai], "-1")) stdoutwrites = 1;
 		ai++;
@@ -137,6 +139,10 @@ int main(int argc, char **argv) {
 						fprintf(logf, ",\"inject\":\"kill-before\"}\n"); fflush(logf);
 						kill(mainpid, SIGKILL); killed = 1;
 						continue;
+					}
+					if (mode == 4 && counter == target) {
+						fprintf(logf, ",\"inject\":\"signal\"");
+						kill(mainpid, signo);
 					}
 					if (mode == 3 && (counter == target || (persist && counter > target && nr == failnr))) {
 						if (counter == target) failnr = nr;
